@@ -127,6 +127,8 @@ func TestProp(t *testing.T) {
 	var lastRaw json.RawMessage
 	var lastMsg string
 	failed := false
+	var firstViolation *iso.Violation
+	_ = firstViolation
 	triage := os.Getenv("VERIF_TRIAGE") == "1" // development aid: record failures without shrinking and continue
 	ntriage := 0
 	defer func() {
@@ -165,6 +167,22 @@ func TestProp(t *testing.T) {
 					stats.AddViolation(iso.Violation{Replay: path, Msg: firstLines(res.Msg, 3)})
 				}
 				return
+			}
+			if !failed {
+				// Record the unshrunk failure at once: if this process is killed while shrinking
+				// (hangs make every shrink step cost a deadline) the violation is not lost.
+				dir := os.Getenv("VERIF_REPLAY_DIR")
+				if dir == "" {
+					dir = "/verif/replay/" + id
+				}
+				if path, err := iso.WriteReplay(dir, id, raw, res.Msg, os.Getenv("VERIF_SEED")); err == nil {
+					firstViolation = &iso.Violation{Replay: path, Msg: firstLines(res.Msg, 12)}
+					if sp := os.Getenv("VERIF_STATS"); sp != "" {
+						stats.AddViolation(*firstViolation)
+						stats.Write(sp) // nolint:errcheck
+						stats.DropLastViolation()
+					}
+				}
 			}
 			failed = true
 			lastRaw, lastMsg = raw, res.Msg
